@@ -301,6 +301,7 @@ def run_spacing(seed):
     st = Stream(seed, 'c20c')
     n = st.randint(3, 60, 'n')
     kind = st.choice(['ok', 'ok', '5m', 'dup-first', 'reversed', '2m', 'zero'], 'kind')
+    where = st.choice(['trading', 'trading', 'data-only'], 'where')     # which symbol's series is wrongly spaced
     step = {'ok': 60_000, '5m': 300_000, '2m': 120_000}.get(kind, 60_000)
     arr = np.array([[T0 + i * step, 10, 10, 10, 10, 1.0] for i in range(n)], dtype=float)
     if kind == 'dup-first':
@@ -320,22 +321,30 @@ def run_spacing(seed):
         cfg = {'starting_balance': 1000, 'fee': 0, 'type': spec['type'], 'futures_leverage': 2, 'futures_leverage_mode': 'cross',
                'exchange': ex, 'warm_up_candles': 0}
         routes = [{'exchange': ex, 'strategy': P.strategy_class_for_route(0), 'symbol': 'BTC-USDT', 'timeframe': '1m'}]
-        candles = {f'{ex}-BTC-USDT': {'exchange': ex, 'symbol': 'BTC-USDT', 'candles': arr}}
+        good = np.array([[T0 + i * 60_000, 10, 10, 10, 10, 1.0] for i in range(n)], dtype=float)
+        data_routes = []
+        if where == 'data-only':
+            # the trading symbol is fine; a symbol that is present only as a data route carries the bad spacing
+            candles = {f'{ex}-BTC-USDT': {'exchange': ex, 'symbol': 'BTC-USDT', 'candles': good},
+                       f'{ex}-ETH-USDT': {'exchange': ex, 'symbol': 'ETH-USDT', 'candles': arr}}
+            data_routes = [{'exchange': ex, 'symbol': 'ETH-USDT', 'timeframe': '1m'}]
+        else:
+            candles = {f'{ex}-BTC-USDT': {'exchange': ex, 'symbol': 'BTC-USDT', 'candles': arr}}
         raised = None
         try:
-            research.backtest(cfg, routes, [], candles)
+            research.backtest(cfg, routes, data_routes, candles)
         except Exception as e:
             raised = e
         if kind == 'ok' and raised is not None:
             vs.append({'property': 'C20', 'clause': 'spacing', 'fingerprint': f'C20|spacing|correct-input-rejected|{type(raised).__name__}',
                        'detail': {'exc': repr(raised)}, 'seq': 0, 'horizon': -1})
         if kind != 'ok' and not isinstance(raised, ValueError):
-            vs.append({'property': 'C20', 'clause': 'spacing', 'fingerprint': f'C20|spacing|bad-spacing-accepted|{kind}|raised={type(raised).__name__ if raised else None}',
+            vs.append({'property': 'C20', 'clause': 'spacing', 'fingerprint': f'C20|spacing|bad-spacing-accepted|{kind}|{where}|raised={type(raised).__name__ if raised else None}',
                        'detail': {'kind': kind}, 'seq': 0, 'horizon': -1})
     finally:
         c.in_session = False
         C.set_current(None)
-    return vs, {'spacing_' + kind: 1}
+    return vs, {'spacing_' + kind: 1, 'spacing_on_' + where: 1}
 
 
 class CandleFeedCheck(SessionCheck):
